@@ -455,6 +455,10 @@ class Interp:
                 k = N.norm_index(self.ctx, key, obj.length)
                 if not (isinstance(v, Arr) and v.ndim == 2 and v.kind == "ndarray"):
                     raise PathAbort("re-binding an element of a list of matrices to something that is not a matrix", target.lineno)
+                if getattr(v, "heap", None) is not None or getattr(v, "base", None) is not None and getattr(getattr(v, "base", None), "heap", None) is not None:
+                    # the slot would share its array with another slot: later in-place writes through either would be seen
+                    # through both, which the slot-wise model cannot express
+                    raise PathAbort("a list slot is bound to the array of another list slot (aliasing between slots is not modelled)", target.lineno)
                 obj.store(k, N.snap(v))
                 return
             raise PathAbort(f"subscript assignment on {type(obj).__name__}", target.lineno)
@@ -655,6 +659,11 @@ class Interp:
             return a * b
         if name == "Mult" and isinstance(b, list) and isinstance(a, int):
             return b * a
+        if name == "Mult" and isinstance(a, list) and T.is_sym(b) and len(a) == 1 and isinstance(a[0], Arr) and a[0].kind == "ndarray":
+            # [placeholder_array] * n: n references to one array; modelled as a list of matrices none of whose slots is
+            # initialised yet (every slot must be re-bound before it is read or written in place)
+            ctx.oblige(T.ge(b, 0), "list-repetition-count-non-negative", kind="index")
+            return HeapList(b, rows=lambda m: 0, cols=lambda m: 0, entry=lambda m, i, j: 0.0, init=lambda m: False)
         if name == "Mult" and isinstance(a, list) and T.is_sym(b):
             if len(a) == 1:
                 x = a[0]
@@ -957,6 +966,10 @@ class Interp:
             raise PyRaise("KeyError", str(key), ctx.cur_line)
         if isinstance(obj, Rec):
             return self.call_method(obj, "__getitem__", [key], {})
+        if isinstance(obj, HeapList) and obj.init is not None and not isinstance(key, slice):
+            k = N.norm_index(ctx, key, obj.length)
+            ctx.oblige(obj.init(k), "list-slot-was-bound-before-it-is-read", kind="index")
+            return obj.item(k)
         if isinstance(obj, SymList):
             if isinstance(key, slice):
                 if key.step is None and key.stop is None and isinstance(key.start, int) and key.start >= 0:
